@@ -207,6 +207,22 @@ CLAIMED = {
         note="Trusted: TLC; exactness of float arithmetic on small integers. Rounding claims are sampled (exploration), layouts and "
              "index structure are model-checked and probed for every m.",
         technique="TLA+ address-map definitions checked with TLC + replay of printed maps + TLC trace validation of probes and integer-data kernels"),
+    "C07": dict(
+        category="exploration",
+        text="Dispatch.tla transcribes every selection rule (module vtable, 18 table kinds) with each kernel's precondition read off "
+             "its loop; TLC checks as an ASSUME that for every dimension 2^0..2^16, parameter and subset of {avx2, fma} the selected "
+             "kernel is applicable and of the right kind (model-checked part). On the real library, tables and modules are created "
+             "under the four CPU masks (guarded CPU-feature override), the installed function pointer is resolved to a kernel name "
+             "and TLC checks it is legal (equality with the transcribed rule is advisory: model_drift). Kernel pairs - znx "
+             "add/sub/negate and rnx divide (ref/AVX, nn from 1, misaligned, extremal, in place), pointwise kernels (ref/FMA/SSE/"
+             "AVX-512), reim4 dot products and convolution, numeric conversions, q120 products (ref/AVX2) - are each validated "
+             "against the definition of their kind by the trace specifications of C08/C13/C17/C14/C10; TLC-generated API programs "
+             "are replayed under the AVX and the generic dispatch and must give the integers of the specification under both.",
+        design_ref="DESIGN.md section 4 C07",
+        note="Registered at the weaker level (exploration): the dispatch table is model-checked, kernel inputs are sampled. NEON "
+             "kernels cannot run here; AVX-512 kernels run because this host has avx512f/dq/vl. FFT leaves and drivers are covered "
+             "by C06, VMP prepare/apply ref vs avx by C02 (both masks).",
+        technique="TLA+ decision-table model checked with TLC + TLC trace validation of observed selections and of every kernel variant against its definition"),
 }
 
 NOT_YET = "check not built yet in this session (planned, see DESIGN.md section 8)"
